@@ -14,17 +14,25 @@ def converter_stream_stage(run, prop, tier, replay, stride):
         rec = json.load(open(replay))
         with open(cases, "w") as f:
             for fl in rec["failures"]:
-                if fl.get("replay_case") and fl["replay_case"].get("k") == "conv":
+                if fl.get("replay_case") and fl["replay_case"].get("k") in ("conv", "recomp"):
                     f.write(json.dumps(fl["replay_case"]) + "\n")
     else:
         allc = os.path.join(d, "cases_all.ndjson")
         mc = C.run_tlc("mc/MC_C06.tla", "mc/MC_C06_%s.cfg" % tier, prop + "_mc_conv", workers=8, replay_out=allc, timeout=2400)
         C.require_clean(mc, "MC_C06")
         run.add_tlc(mc)
+        # ... and every recompression case of MC_C04 (forced recompression with an unchanged codec is where the stream path
+        # and the lookup path can come apart byte-wise)
+        allr = os.path.join(d, "cases_recomp.ndjson")
+        mcr = C.run_tlc("mc/MC_C04.tla", "mc/MC_C04.cfg", prop + "_mc_recomp", workers=4, replay_out=allr, timeout=1200)
+        C.require_clean(mcr, "MC_C04")
+        run.add_tlc(mcr)
         with open(cases, "w") as f:
             for i, c in enumerate(C.read_ndjson(allc)):
                 if i % stride == 0:
                     f.write(json.dumps(c) + "\n")
+            for c in C.read_ndjson(allr):
+                f.write(json.dumps(c) + "\n")
     case_list = C.read_ndjson(cases)
     t = os.path.join(d, "trace.ndjson")
     s = C.run_harness(hb, ["replay", "CONVERT", cases, t, C.scratch_dir(prop + "conv")], timeout=6000)
@@ -32,9 +40,9 @@ def converter_stream_stage(run, prop, tier, replay, stride):
     run.add_tlc(v)
     for (line, fl) in v.fails:
         for cl in fl["clauses"]:
-            if cl != "stream":
+            if cl not in ("stream", "stream_bytes_eq_lookup"):
                 continue
-            o = fl["case"]["opts"]
+            o = fl["case"].get("opts") or {"flip": 0, "swap": 0, "hasgeo": 0}
             rec = {"clause": cl, "source": "converter", "flip": o["flip"], "swap": o["swap"], "hasgeo": o["hasgeo"], "case": fl["case"]}
             if line - 1 < len(case_list):
                 rec["replay_case"] = case_list[line - 1]
